@@ -28,6 +28,7 @@ RULES=[ # (property, key regex, commit subject prefix, what)
  ('C07', r'absent-part-guard:writer\.', 'fix: WriteStreamWithOptions panicked', 'WriteStreamWithOptions dereferenced nil options and invoked a nil serializer returned by GetFormatSerializer'),
  ('C16', r'loop-totality:sbom\.\(\*NodeList\)\.GetRootNodes/Nodes#exit:break', 'fix: GetRootNodes stopped scanning', 'GetRootNodes left its loop once it had as many nodes as root identifiers: with two nodes sharing a root identifier (Nodes [a,a,b], roots [a,b]) root b was dropped, depending on list order'),
  ('C16', r'loop-totality:sbom\.\(\*NodeList\)\.GetMatchingNode/\[\]\*sbom\.Node#skip:dedupe', 'fix: GetMatchingNode merged distinct nodes', 'hash matches were keyed by node identifier: two distinct nodes sharing an identifier and both matching the probe were folded into one and the first in list order was returned instead of ErrorMoreThanOneMatch'),
+ ('C07', r'nesting-is-acyclic:serializers\.\(\*CDX\)\.dependencies#attach', 'fix: CycloneDX serializer overflowed the stack', 'a contains edge from a node to itself appended a by-value copy of the component to its own child list (shared pointer, cyclic structure): with the node also nested under another top-level component (edges [a contains a], [b contains a]) clearAutoRefs recursed until the stack overflowed — a fatal error, not an error return'),
  ('C19', r'absent-part-guard:storage\.\(\*FileSystem\)\.Store#bom', 'fix: FileSystem.Store panicked on a nil document', 'FileSystem.Store(nil, …) dereferenced bom.Metadata: nil pointer panic instead of the "no document id set" error'),
  ('C07', r'map-order-independence:serializers\.\(\*CDX\)\.nodeToComponent/Identifiers#c\.CPE', 'fix: CycloneDX serializer picks the component CPE', 'with an empty CPE 2.3 identifier next to a non-empty CPE 2.2 one, the emitted component cpe depended on map iteration order (Identifiers{CPE23:"",CPE22:"cpe:/a:v:p:1"}: 266 of 300 runs emitted the cpe, 34 omitted it)'),
  ('C01', r'loop-totality:serializers\.\(\*SPDX23\)\.buildPackages/Nodes#exit:break', 'fix: SPDX 2.3 serializer dropped', 'a package with two primary purposes truncated the SPDX package list (break out of the node loop)'),
